@@ -52,6 +52,7 @@ type c01Node struct {
 	best             []*wire.MsgBlock // best[i] is the best-chain block at height base+i
 	base             uint64
 	failAt, calls    int
+	missing          *wire.MsgBlock // a block the node no longer has (it reorganised in the meantime): looked up, it is absent - (nil, nil)
 }
 
 var errC01Node = errors.New("verif: chain database error")
@@ -66,7 +67,7 @@ func (n *c01Node) FetchBlockBySha(sha *wire.Hash) (*wire.MsgBlock, error) {
 		return nil, errC01Node
 	}
 	for _, b := range n.blocks {
-		if b.BlockHash() == *sha {
+		if b.BlockHash() == *sha && b != n.missing {
 			return b, nil
 		}
 	}
@@ -155,10 +156,18 @@ func c01TipStep(maxA, maxB int) {
 	node.blocks = append(append([]*wire.MsgBlock{}, best...), old[2:]...)
 	before := st.VerifSyncRecords()
 
-	node.failAt = rt.NondetLen(0, 8)
+	// one block of the announced branch below its tip may have left the node's database before the follower asks for it
+	// (the node reorganised in the meantime); that case is explored without a further fault
+	gone := rt.NondetLen(0, len(best)-2) // 0: every block is there
+	dbFault := 0
 	st.DB.Calls = 0
 	st.DB.FaultWrites = true
-	dbFault := rt.NondetLen(0, 40)
+	if gone >= 1 {
+		node.missing = best[gone]
+	} else {
+		node.failAt = rt.NondetLen(0, 8)
+		dbFault = rt.NondetLen(0, 40)
+	}
 	st.DB.FaultAt = dbFault
 	tip := best[len(best)-1]
 	err := h.processConnectedBlock(tip)
@@ -169,7 +178,7 @@ func c01TipStep(maxA, maxB int) {
 		binary.BigEndian.PutUint64(k, x)
 		return k
 	}
-	if node.failAt == 0 && dbFault == 0 {
+	if node.failAt == 0 && dbFault == 0 && node.missing == nil {
 		rt.Assert(err == nil, "tip-accepted-when-nothing-fails")
 	}
 	if err != nil {
